@@ -1514,3 +1514,102 @@ Proof. reflexivity. Qed.
 
 Lemma Gen_type_to_tag_eq_ref : type_to_tag = ref_type_to_tag.
 Proof. reflexivity. Qed.
+
+(* ---------- the output is in canonical order ---------- *)
+
+Lemma sorted_sortedb_keys {B} cmp (S : list (string * B)) :
+  sorted cmp S -> sortedb cmp (map fst S) = true.
+Proof.
+  induction 1 as [|x t Hs IH Hall]; cbn; auto.
+  rewrite IH, andb_true_r. rewrite forallb_forall. intros y Hy.
+  apply in_map_iff in Hy. destruct Hy as [d [<- Hd]].
+  rewrite Forall_forall in Hall. specialize (Hall d Hd). unfold le_fst in Hall. rewrite Hall. reflexivity.
+Qed.
+
+Lemma sortedb_short {A} (lt : A -> A -> bool) l : (List.length l < 2)%nat -> sortedb lt l = true.
+Proof. destruct l as [|x [|y t]]; cbn; auto; lia. Qed.
+
+Section OutputSorted.
+  Variable nonstr : string -> bool.
+  Variable hastype : string -> string -> bool.
+  Variables kind api : string.
+
+  Lemma isort_elem_keeps_key f e s p e' k :
+    fmt_node nonstr hastype isort kind api s p e = Ok e' -> seq_key f e = Ok k -> seq_key f e' = Ok k.
+  Proof.
+    apply (elem_keeps_key nonstr hastype kind api isort (fun _ => True)); auto.
+    intros s1 p1 h0 kvs f0 _ D _. unfold isort. split.
+    - apply isort_perm.
+    - apply (isort_filter less_key less_key_strict_total).
+  Qed.
+
+  Theorem fmt_output_sorted : forall n s p n',
+    fmt_node nonstr hastype isort kind api s p n = Ok n' -> canon_sorted kind api p n' = true.
+  Proof.
+    induction n as [h v|h v|h kvs IH|h es IH] using cnode_ind'; intros s p n' H.
+    - cbn in H. inv H. reflexivity.
+    - cbn in H. inv H. reflexivity.
+    - rewrite fmt_map_eq in H. apply bind_ok in H. destruct H as [D [HD H]]. inv H.
+      apply fpairs_ok in HD.
+      destruct (isort_S1 _ less_key less_key_strict_total D) as [HP [HSo _]].
+      set (S := isort _ (lt_fst less_key) D) in *.
+      assert (HQ : Forall (fun d : string * (cnode * cnode) =>
+                     cvalue (fst (snd d)) = fst d /\
+                     canon_sorted kind api p (fst (snd d)) = true /\
+                     canon_sorted kind api (p ++ "." ++ fst d) (snd (snd d)) = true) S).
+      { eapply Forall_perm; [apply Permutation_sym; exact HP|].
+        eapply Forall2_Forall_r; [exact HD|exact IH|].
+        intros kv d [I1 I2] [R1 [R2 R3]].
+        rewrite R1. split; [apply (fmt_cvalue _ _ _ _ _ _ _ _ _ R2)|]. split; [exact (I1 _ _ _ R2)|exact (I2 _ _ _ R3)]. }
+      cbn [canon_sorted]. apply andb_true_iff. split.
+      + replace (key_values (map snd S)) with (map fst S); [apply sorted_sortedb_keys; exact HSo|].
+        unfold key_values. rewrite map_map. clear - HQ.
+        induction HQ as [|d t [E _] _ IHt]; cbn; auto. rewrite E, IHt. reflexivity.
+      + clear - HQ. induction HQ as [|d t [E [C1 C2]] _ IHt]; cbn [map]; auto.
+        rewrite C1, E, C2, IHt. reflexivity.
+    - rewrite fmt_seq_eq in H. apply bind_ok in H. destruct H as [E [HE H]].
+      apply felems_ok in HE.
+      assert (HC : Forall (fun e' => canon_sorted kind api p e' = true) E).
+      { eapply Forall2_Forall_r; [exact HE|exact IH|]. intros e e' I R. exact (I _ _ _ R). }
+      assert (GO : forall l, Forall (fun e' => canon_sorted kind api p e' = true) l ->
+                 (fix go (l : list cnode) : bool :=
+                    match l with [] => true | e :: t => canon_sorted kind api p e && go t end) l = true).
+      { induction 1 as [|x t Hx _ IHt]; auto. rewrite Hx, IHt. reflexivity. }
+      destruct (sort_field kind api p) as [f|] eqn:SF.
+      + apply bind_ok in H. destruct H as [K [HK H]]. inv H.
+        destruct (isort_S1 _ String.ltb ltb_strict_total (combine K E)) as [HP [HSo _]].
+        set (S := isort _ (lt_fst String.ltb) (combine K E)) in *.
+        cbn [canon_sorted]. rewrite SF. apply andb_true_iff. split.
+        * assert (LE : List.length E = List.length es) by (symmetry; eapply Forall2_length'; eauto).
+          assert (LK : List.length K = List.length es) by (eapply seq_keys_length; eauto).
+          assert (LS : List.length (map snd S) = List.length es).
+          { rewrite map_length, (Permutation_length HP), combine_length. lia. }
+          unfold seq_keys in HK. destruct (2 <=? List.length es)%nat eqn:E2.
+          -- apply mapM_ok in HK.
+             pose proof (Forall2_combine _ _ _ _ _ HK HE) as HCm.
+             assert (HF : Forall (fun d : string * cnode => seq_key f (snd d) = Ok (fst d)) S).
+             { eapply Forall_perm; [apply Permutation_sym; exact HP|].
+               eapply Forall2_Forall_r with (Q := fun _ => True); [exact HCm| |].
+               - rewrite Forall_forall. auto.
+               - intros e d _ [R1 R2]. eapply isort_elem_keeps_key; eauto. }
+             assert (HM : mapM (seq_key f) (map snd S) = Ok (map fst S)).
+             { apply mapM_ok. clear - HF. induction HF as [|d t Hd _ IHt]; cbn; constructor; auto. }
+             rewrite HM. apply sorted_sortedb_keys. exact HSo.
+          -- apply Nat.leb_gt in E2.
+             assert (HT : exists K', mapM (seq_key f) (map snd S) = Ok K').
+             { clear. induction (map snd S) as [|e t [K' HK']]; cbn; [eauto|].
+               destruct (seq_key_ok f e) as [k Hk]. rewrite Hk, HK'. cbn. eauto. }
+             destruct HT as [K' HK']. rewrite HK'. apply sortedb_short.
+             apply mapM_ok in HK'. rewrite <- (Forall2_length' _ _ _ HK'). lia.
+        * apply GO. eapply Forall_perm with (l := E).
+          -- assert (PE : Permutation (map snd S) (map snd (combine K E))) by (apply Permutation_map; exact HP).
+             assert (LK : List.length K = List.length E).
+             { rewrite (seq_keys_length _ _ _ HK). eapply Forall2_length'; eauto. }
+             assert (ME : map snd (combine K E) = E).
+             { clear - LK. revert E LK. induction K as [|k K IHK]; intros [|e E] L; cbn in *; try discriminate; auto.
+               f_equal. apply IHK. lia. }
+             rewrite ME in PE. apply Permutation_sym. exact PE.
+          -- exact HC.
+      + inv H. cbn [canon_sorted]. rewrite SF. cbn [andb]. apply GO. exact HC.
+  Qed.
+End OutputSorted.
